@@ -29,7 +29,7 @@ EPS = 1e-9
 def cases(tier, seed):
     rnd = random.Random(seed * 2654435761 % (2 ** 31) + 4)
     out = []
-    n = 150 if tier == 'quick' else 2500
+    n = 400 if tier == 'quick' else 2500
     for i in range(n):
         kind = ('patterns', 'patterns', 'reopen', 'reliable', 'patterns', 'reopen')[i % 6]
         out.append({'seed': seed * 1000003 + i, 'kind': kind, 'nreq': rnd.randint(1, 6),
